@@ -124,10 +124,11 @@ def run(ctx):
         for bad in tv2.tagged("BAD"):
             rec = part[bad["l"] - 1]
             shape = "".join(h["kind"] for h in hc[rec["case"]]["headers"] if h["canon"] == rec["canon"])
-            key = (rec["canon"], rec["proto"], rec["via"], shape)
-            if key in seen:
+            # one report per header, protocol and route; with a single value if that already leaks, else per shape
+            key = (rec["canon"], rec["proto"], rec["via"])
+            if key in seen or (key + (shape,)) in seen:
                 continue
-            seen.add(key)
+            seen.add(key if set(shape) == {"s"} else key + (shape,))
             ctx.violation({"kind": "dump", "header": rec["canon"], "proto": rec["proto"], "via": rec["via"], "spelling": rec["name"],
                            "values": shape},
                           "the debug dump of a %s request (%s) contains the value of credential header %s (sent as '%s', value %d of a field "
